@@ -368,4 +368,13 @@ example : PST.combineLC
     [((⟨[112], [(4, [])], 2, some 2, none⟩ : PST.LPoly K), ⟨[], 0⟩, ⟨[112], ⟨12, none⟩, none⟩)]
     ⟨[108], [(1, .poly [112]), (5, .one)]⟩ = .error .equationHasDegreeBounds := by decide
 
+/-- `pst13_lc_batch_defect_shift` on two accepted per-point claims moved by `(1, 4)` and `(2, 7)` under
+the randomizer `5`: the product moves from `0` to `(1 − 3·4)·11 + 5·(2 − 3·7)·11` -/
+example : PST.batchDefect exVK [48, 68] [[10, 20], [10, 20]] [39, 99]
+    [⟨[10, 66], some 93⟩, ⟨[31, 59], some 36⟩] [5] = .ok 0 := by decide
+example : PST.batchDefect exVK [48 + 1, 68 + 2] [[10, 20], [10, 20]] [39 + 4, 99 + 7]
+    [⟨[10, 66], some 93⟩, ⟨[31, 59], some 36⟩] [5]
+    = .ok ((1 - 3 * 4) * 11 + 5 * ((2 - 3 * 7) * 11)) := by decide
+example : PST.claimShifts exVK [1, 2] [4, 7] = [(1 - 3 * 4) * 11, (2 - 3 * 7) * 11] := by decide
+
 end PCV.C06
